@@ -102,10 +102,15 @@ def gen_plan(rng, idx):
     if rng.random() < 0.25:
         lo = rng.choice([['--languagemodel', '/ngrams'], ['--level', 'PICKY'],
                          ['--languagemodel', '/ng', '--level', 'PICKY'],
-                         ['--disable', 'X_RULE'], ['-eo']])
+                         ['--disable', 'X_RULE'], ['-eo'],
+                         ['--enable', 'LTO_RULE'],
+                         ['--enabledonly', '--enable', 'A_RULE,B_RULE'],
+                         ['--disablecategories', 'LTOCAT'],
+                         ['--disable', 'X_RULE', '--languagemodel', '/ng']])
         opts['lt_options'] = lo
         argv += ['--lt-options', '~' + ' '.join(lo)]
-        if any(o in ('--disable', '-eo') for o in lo):
+        if any(o.startswith('-') and o not in ('--languagemodel', '--level')
+               for o in lo):
             opts['judge_rules'] = False     # conflicting --lt-options
     if not plain_input and rng.random() < 0.3:
         # phrase replacements that change lengths before flagged words
@@ -177,7 +182,17 @@ def gen_plan(rng, idx):
     # targets
     lit = [w for d in docs for w in docgen.literal_words(d)]
     targets = rng.sample(lit, min(len(lit), rng.randrange(1, 13))) if lit else []
-    peer = {'targets': targets,
+    phrases = []
+    for d in docs:
+        for f in d:
+            for ph in f.get('phrases', []):
+                if rng.random() < 0.6:
+                    phrases.append(ph)
+                    # nested: a word inside the span is flagged as well
+                    for w in f['w']:
+                        if w not in targets and rng.random() < 0.4:
+                            targets.append(w)
+    peer = {'targets': targets, 'phrases': phrases,
             'dup': [w for w in targets if rng.random() < 0.08],
             'nonascii': rng.random() < 0.8,
             'ensure_ascii': rng.random() < 0.3,
@@ -245,6 +260,10 @@ def gen_plan(rng, idx):
             if rng.random() < 0.15:
                 over['encat'] = _opt_list(rng, CATS)
                 fields.append(['enabledCategories', over['encat']])
+            if not docgen.doc_text(d).strip():
+                # an empty 'text' field would be dropped by the form decoding
+                w_ = W.words(2)
+                d.append(docgen.frag('plain', ' '.join(w_) + '.', w_))
             reqs.append({'client': i, 'fields': fields, 'doc': {'frags': d},
                          'text_pos': rng.randrange(len(fields) + 1),
                          'over': over})
@@ -345,7 +364,7 @@ def expected_rule_fields(eff, lang, text, main_lang):
     return dis, cat, 'ml_addition'
 
 
-def norm_submission(sub):
+def norm_submission(sub, ntail=0):
     """Normalises both transports to (language, disable, enable, discat,
     encat, rest)."""
     if sub['transport'] == 'run':
@@ -353,32 +372,33 @@ def norm_submission(sub):
         d = {'--language': None, '--disable': '', '--enable': '',
              '--disablecategories': '', '--enablecategories': ''}
         rest = []
-        i = 1
-        head = argv[1:4]
-        i = 4
-        seen_fixed = True
-        # fixed prefix: --json --encoding utf-8
-        if head != ['--json', '--encoding', 'utf-8']:
-            rest.append('BADPREFIX:' + ' '.join(head))
-        # the shell's own options come first, in a fixed order, each once
-        order = ['--language', '--disable', '--enable', '--disablecategories',
-                 '--enablecategories']
-        for name in order:
-            if i + 1 < len(argv) and argv[i] == name:
-                d[name] = argv[i + 1]
-                i += 2
-        tail = argv[i:]
-        if not tail or tail[-1] != '-':
+        # fixed prefix: <cmd> --json --encoding utf-8
+        if argv[1:4] != ['--json', '--encoding', 'utf-8']:
+            rest.append('BADPREFIX:' + ' '.join(argv[1:4]))
+        body = argv[4:]
+        if not body or body[-1] != '-':
             rest.append('NOSTDIN')
         else:
-            tail = tail[:-1]
+            body = body[:-1]
+        # the last ntail tokens are the (expected) --lt-options; before them
+        # the shell's own options, in a fixed order, each at most once
+        cut = max(0, len(body) - ntail)
+        head, tail = body[:cut], body[cut:]
+        i = 0
+        for name in ['--language', '--disable', '--enable',
+                     '--disablecategories', '--enablecategories']:
+            if i + 1 < len(head) and head[i] == name:
+                d[name] = head[i + 1]
+                i += 2
+        if i < len(head):
+            rest.append('UNPARSED:' + ' '.join(head[i:]))
         return (d['--language'], d['--disable'], d['--enable'],
                 d['--disablecategories'], d['--enablecategories'],
                 rest + tail)
     if sub['transport'] == 'textgears':
         return (None, None, None, None, None, [])
     f = sub['fields']
-    rest = sorted(k for k in f if k not in (
+    rest = sorted([k, f[k]] for k in f if k not in (
         'language', 'disabledRules', 'enabledRules', 'disabledCategories',
         'enabledCategories', 'url'))
     return (f.get('language'), f.get('disabledRules', ''),
@@ -450,13 +470,50 @@ def evaluate(plan):
                     got_langs=[s['language'] for s in subs])
     if len(want) > 1:
         probes['multi_part'] = 1
+    def expected_tail(eff):
+        tail = list(o['lt_options'])
+        ov = eff.get('over') or {}
+        for key, name in (('disable', '--disable'), ('enable', '--enable'),
+                          ('discat', '--disablecategories'),
+                          ('encat', '--enablecategories')):
+            if key in ov:
+                # server emulation: request fields are appended as options
+                tail += [name, ov[key]]
+        return tail
+
     per_unit_subs = [[] for _ in us]
+    # whatever the configured rule options are, every part of a unit gets
+    # them: parts may differ only through the --ml-disable addition
+    seen_opts = {}
+    for k, (sub, (ui, lang, text, eff)) in enumerate(zip(subs, want)):
+        if not o['judge_rules'] and eff.get('over'):
+            # server emulation + conflicting --lt-options: entries matching a
+            # request field are removed from the option list, its length is
+            # not predictable -> nothing compared
+            continue
+        if sub['transport'] != 'textgears':
+            n_ = norm_submission(sub, len(expected_tail(eff)))
+            _, _, why_ = expected_rule_fields(eff, lang, text, eff['lang'])
+            common = json.dumps([n_[2], n_[4], n_[5]], sort_keys=True)
+            if ('c', ui) in seen_opts and seen_opts[('c', ui)] != common:
+                return viol('submissions:options-differ-between-parts', k=k,
+                            got=json.loads(common),
+                            first_part=json.loads(seen_opts[('c', ui)]))
+            seen_opts.setdefault(('c', ui), common)
+            if why_ != 'short_main_part':
+                dd = json.dumps([n_[1], n_[3]])
+                if ('d', ui, why_) in seen_opts and \
+                        seen_opts[('d', ui, why_)] != dd:
+                    return viol('submissions:options-differ-between-parts',
+                                k=k, why=why_, got=json.loads(dd),
+                                first_part=json.loads(seen_opts[('d', ui, why_)]))
+                seen_opts.setdefault(('d', ui, why_), dd)
     for k, (sub, (ui, lang, text, eff)) in enumerate(zip(subs, want)):
         per_unit_subs[ui].append(sub)
         if sub['text'] != text:
             return viol('submissions:text', k=k, got=sub['text'][:200],
                         want=text[:200])
-        n = norm_submission(sub)
+        n = norm_submission(sub, len(expected_tail(eff)))
         if sub['transport'] == 'textgears':
             # one submission per part; no language, no rule options
             probes['transport_textgears_parts'] = \
@@ -490,14 +547,7 @@ def evaluate(plan):
                 return viol('submissions:enable-options', k=k, option=lab,
                             got=g, want=w_)
         if sub['transport'] == 'run':
-            tail = list(o['lt_options'])
-            ov = eff.get('over') or {}
-            for key, name in (('disable', '--disable'), ('enable', '--enable'),
-                              ('discat', '--disablecategories'),
-                              ('encat', '--enablecategories')):
-                if key in ov:
-                    # server emulation: request fields are appended as options
-                    tail += [name, ov[key]]
+            tail = expected_tail(eff)
             if n[5] != tail:
                 return viol('submissions:lt-options', got=n[5], want=tail)
         if eff.get('over'):
@@ -531,6 +581,16 @@ def evaluate(plan):
                     if w in dups:
                         exp.append((w, src, len(w)))
                         probes['peer_duplicated'] = 1
+            for (w1, w2) in plan['peer'].get('phrases', []):
+                o1, o2 = sub['text'].find(w1), sub['text'].find(w2)
+                if 0 <= o1 < o2 and o2 + len(w2) - o1 < 300:
+                    s1, s2 = tex.find(w1), tex.find(w2)
+                    if s1 < 0 or s2 < s1:
+                        return core.harness('phrase %r not in source' % w1)
+                    exp.append((w1 + '+' + w2, s1, s2 + len(w2) - s1))
+                    probes['phrase_match'] = 1
+                    if '\n' in tex[s1:s2]:
+                        probes['match_spanning_lines'] = 1
         expected.append(exp)
     n_exp = sum(len(e) for e in expected)
     if n_exp == 0:
@@ -568,8 +628,10 @@ def evaluate(plan):
                 if cand:
                     r['offset'] = cand[0][1]
                     remaining.remove(cand[0])
+        wlen = {(w, o_): l for (w, o_, l) in want_ms}
         got_ms = sorted((r['word'], r['offset'],
-                         r['length'] if r['length'] is not None else len(r['word']))
+                         r['length'] if r['length'] is not None
+                         else wlen.get((r['word'], r['offset']), len(r['word'])))
                         for r in sim)
         if want_ms != got_ms:
             # classify for the minimiser
@@ -632,7 +694,7 @@ def collect_reports(plan, obs, us):
                                                          rec['file'])
             w = word_of(rec.get('message'))
             r = {'offset': off, 'length': None, 'word': w, 'problems': []}
-            if w is not None:
+            if w is not None and '+' not in w:
                 ctx, marks = rec.get('ctx', ''), rec.get('marks', '')
                 a = marks.find('^')
                 n = marks.count('^')
@@ -727,7 +789,7 @@ def collect_reports(plan, obs, us):
                                                                       'replace')
                     else:
                         frag = ct[co:co + cl]
-                    if frag != w:
+                    if frag != w and '+' not in w:
                         r['problems'].append('excerpt: context offset/length '
                                              'denote %r, not the flagged word'
                                              % frag)
@@ -769,9 +831,26 @@ def collect_reports(plan, obs, us):
                         colx = k
                     w = word_of(title)
                     tl = re.search(r'\nLine (\d+)(\+?): >>>', title)
+                    prev = res[ui][-1] if res[ui] else None
+                    if (prev is not None and colx == 0
+                            and prev.get('title') == title
+                            and prev.get('ends_line') == n - 1):
+                        # a match spanning a line break: its span is repeated
+                        # in the next row; one report, length includes '\n'
+                        prev['length'] += 1 + len(hl)
+                        prev['ends_line'] = (n if colx + len(hl) ==
+                                             len(lines[n - 1]) else None)
+                        continue
                     r = {'offset': starts[n - 1] + colx, 'length': len(hl),
-                         'word': w, 'problems': []}
-                    if w is not None:
+                         'word': w, 'problems': [], 'title': title,
+                         'ends_line': (n if colx + len(hl) == len(lines[n - 1])
+                                       else None)}
+                    if w is not None and '+' in w:
+                        if not tl or int(tl.group(1)) != n:
+                            r['problems'].append('highlight: title names line '
+                                                 '%s, row is %d'
+                                                 % (tl and tl.group(1), n))
+                    elif w is not None:
                         if hl != w:
                             r['problems'].append('highlight: marked %r instead '
                                                  'of the flagged word' % hl)
@@ -785,10 +864,17 @@ def collect_reports(plan, obs, us):
                     res[ui].append(r)
                     nreps += 1
             for n, cell in part['overlaps']:
+                last_title = None
                 for m in shellscen.RE_SPAN.finditer(cell):
                     title = shellscen.unprotect(m.group(1))
                     hl = shellscen.unprotect(m.group(2))
                     w = word_of(title)
+                    if title == last_title and res[ui] and \
+                            res[ui][-1].get('overlap'):
+                        # continuation of a multi-line overlapping message
+                        res[ui][-1]['length'] += 1 + len(hl)
+                        continue
+                    last_title = title
                     # an overlapping message is listed separately with its
                     # line number; locate it through the line number
                     if not 1 <= n <= len(lines):
@@ -797,7 +883,7 @@ def collect_reports(plan, obs, us):
                     r = {'offset': (starts[n - 1] + c) if c >= 0 else -1,
                          'length': len(hl), 'word': w, 'problems': [],
                          'overlap': True, 'line': n}
-                    if w is not None and hl != w:
+                    if w is not None and '+' not in w and hl != w:
                         r['problems'].append('highlight: overlap marked %r '
                                              'instead of the flagged word' % hl)
                     res[ui].append(r)
@@ -903,6 +989,23 @@ def _prune_targets(plan):
 
 
 def shrink(plan):
+    # first of all: options back from the config file onto the command line
+    cfgm = plan['opts'].get('cfg_mode')
+    if cfgm in ('split', 'overridden', 'no_config') and \
+            '.yalafi.shell' in plan['files']:
+        c = copy.deepcopy(plan)
+        lines = docgen.file_text(c['files'].pop('.yalafi.shell')).split('\n')
+        if cfgm == 'split':
+            extra = []
+            for ln in lines:
+                if ln.strip():
+                    extra += ln.strip().split(maxsplit=1)
+            c['argv'] = extra + c['argv']
+        elif cfgm == 'no_config':
+            c['argv'] = [a for a in c['argv'] if a != '--no-config']
+        c['opts']['cfg_mode'] = 'none'
+        yield c
+        return      # nothing else until the configuration is a plain one
     refs = _docs(plan)
     # drop whole documents
     if len(refs) > 1:
@@ -947,7 +1050,7 @@ def shrink(plan):
         c['peer']['dup'] = []
         yield c
     # simpler transport
-    if plan['transport'] != 'run':
+    if plan['transport'] in ('my', 'lt') and '--server' in plan['argv']:
         c = copy.deepcopy(plan)
         c['transport'] = 'run'
         a = c['argv']
@@ -984,7 +1087,7 @@ def shrink(plan):
                 if key == 'lt_options':
                     c['opts']['judge_rules'] = True
             yield c
-    if plan['opts'].get('repl'):
+    if plan['opts'].get('repl') and '--replace' in plan['argv']:
         c = copy.deepcopy(plan)
         i = c['argv'].index('--replace')
         del c['argv'][i:i + 2]
